@@ -6,7 +6,8 @@ import storefamx
 import vlib
 
 PID = "C16"
-FILES = ["theories/Properties/C16.v", "theories/Examples/C16Examples.v", "theories/Examples/C16Wirings.v"]
+FILES = ["theories/Properties/C16.v", "theories/Examples/C16Examples.v", "theories/Examples/C16Wirings.v",
+         "theories/Examples/C16W3Wirings.v"]
 
 
 def sys_families(sch):
@@ -294,6 +295,8 @@ def main(argv):
                      "the constraint is registered on a root store (theorems (1)-(4), wf_system_b) or on a child store whose isSystem "
                      "symbol is the one granted by its parent, i.e. the flag lives in the root entity bucket (theorem (5), "
                      "wf_system_child_b); a child store keeping its own isSystem value in its extension data is not modelled",
+                     "fields persisted with PersistContext.SetRequiredString always receive a non-empty value (field validation is not "
+                     "part of the store machine); linked ids written by PersistContext.SetLinkedIds are outside the compared projection",
                      "a restore step replaces the whole bolt file by a snapshot taken earlier in the same history (Db.StreamToWriter); "
                      "the model counterpart is state := state after step k (Store/SystemRestore.v)"]
     proof_ok = c.proof_step(FILES)
@@ -321,8 +324,14 @@ def main(argv):
         "on the same stores, a snapshot file made by Db.Snapshot, a second node whose stores were initialised on an empty "
         "database, a swapped file, a restart with freshly built stores - followed (65%) by an ordinary transaction that starts "
         "with an update / delete of a system entity present now. Model counterpart Store/SystemRestore.v (state := state after "
-        "step k). Non-trivial: the history updates or deletes an existing system entity of a constrained family, or a refusal "
-        "was swallowed.",
+        "step k). Third strengthening (store_c16w3.go): ~21% of the histories use wirings whose parent store carries the "
+        "constraint plus unique / set / fk indexes while its child store (c16np plain, c16nx extended) declares NOTHING but "
+        "fields, and whose entity strategies persist fields with the PersistContext-level helpers SetRequiredString (root and "
+        "child level), GetAndSetString, GetAndSetStringList and - decorations l / e of a mixed transaction - SetLinkedIds: the "
+        "refusal latched before PersistEntity must survive every write helper and nothing may be written after it (required "
+        "values are always supplied: the machine does not model field validation; links are outside the projection and only "
+        "seen by the dump around a swallowed refusal). Non-trivial: the history updates or deletes an existing system entity "
+        "of a constrained family, or a refusal was swallowed.",
         nontrivial=nontrivial)
     if not proof_ok:
         c.violation(PID + ":proof", "proof obligation no longer checks: %s" % json.dumps(c.proof_broken)[:600],
